@@ -43,8 +43,18 @@ impl ScriptSource {
     }
 }
 
+impl ScriptSource {
+    /// hook events recorded since the last pipe call come first (program order, single thread)
+    fn drain_hooks(&mut self) {
+        for h in verif_events_json(verif::take()) {
+            self.log.push(json!({"t": "hook", "e": h}));
+        }
+    }
+}
+
 impl io::Read for ScriptSource {
     fn read(&mut self, buf: &mut [u8]) -> io::Result<usize> {
+        self.drain_hooks();
         self.calls += 1;
         if self.calls > self.budget {
             // an error would be one more outcome the code under test may swallow: unwind instead
@@ -54,16 +64,16 @@ impl io::Read for ScriptSource {
             Some(POut::Data(n)) => {
                 let k = n.min(buf.len()).min(self.stream.len() - self.rd);
                 buf[..k].copy_from_slice(&self.stream[self.rd..self.rd + k]);
-                self.log.push(json!({"ev": "read", "offered": buf.len(), "n": k, "pos": self.rd, "data": self.stream[self.rd..self.rd + k].to_vec()}));
+                self.log.push(json!({"t": "pipe", "e": {"ev": "read", "offered": buf.len(), "n": k, "pos": self.rd, "data": self.stream[self.rd..self.rd + k].to_vec()}}));
                 self.rd += k;
                 Ok(k)
             }
             Some(POut::Eof) | Some(POut::Zero) => {
-                self.log.push(json!({"ev": "read", "offered": buf.len(), "n": 0, "pos": self.rd, "data": []}));
+                self.log.push(json!({"t": "pipe", "e": {"ev": "read", "offered": buf.len(), "n": 0, "pos": self.rd, "data": []}}));
                 Ok(0)
             }
             Some(_) => {
-                self.log.push(json!({"ev": "readerr", "offered": buf.len(), "pos": self.rd}));
+                self.log.push(json!({"t": "pipe", "e": {"ev": "readerr", "offered": buf.len(), "pos": self.rd}}));
                 Err(io::Error::new(io::ErrorKind::ConnectionReset, "verif: injected read error"))
             }
             None => {
@@ -185,8 +195,11 @@ pub fn run_blocking_receiver<T: Shape + ?Sized>(stream: &[u8], script: Vec<POut>
         let mut max_calls = 0usize;
         loop {
             let c0 = rx.verif_buffer().verif_pipe().calls;
+            let mut before: Vec<Value> = vec![];
             let (ret, stop) = match rx.recv() {
                 Ok(g) => {
+                    // hook events up to the return of recv (the guard is still alive)
+                    before = verif_events_json(verif::take()).into_iter().map(|h| json!({"t": "hook", "e": h})).collect();
                     let mut c = Ctx::unbounded();
                     let val = g.read(&mut c);
                     let size = g.size();
@@ -207,10 +220,13 @@ pub fn run_blocking_receiver<T: Shape + ?Sized>(stream: &[u8], script: Vec<POut>
                     }
                 }
             };
-            // merge what the pipe saw and what the buffer did during this recv (single thread: program order)
-            let pipe_log: Vec<Value> = std::mem::take(&mut rx.verif_buffer_mut().verif_pipe_mut().log);
-            let hooks = verif_events_json(verif::take());
-            trace.push(json!({"ev": "recv", "pipe": pipe_log, "hooks": hooks, "ret": ret}));
+            // program order (single thread): pipe calls with the hook events before each of them, the hook
+            // events up to the return, the return, then what dropping the guard did
+            let mut evs: Vec<Value> = std::mem::take(&mut rx.verif_buffer_mut().verif_pipe_mut().log);
+            evs.extend(before);
+            let post: Vec<Value> = verif_events_json(verif::take()).into_iter().map(|h| json!({"t": "hook", "e": h})).collect();
+            let (evs, post) = if ret["e"] == "msg" { (evs, post) } else { let mut e2 = evs; e2.extend(post); (e2, vec![]) };
+            trace.push(json!({"evs": evs, "ret": ret, "post": post}));
             let c1 = rx.verif_buffer().verif_pipe().calls;
             max_calls = max_calls.max(c1 - c0);
             let is_ex = ret["e"] == "exhausted";
